@@ -820,6 +820,21 @@ def check_cfg(run, lst, ob):
                         blk_of_label_.get(t_) in lst.proxy_deleted:
                     callee_proxied_sites.setdefault(fn_, set()).add(
                         bpos_[nxt_["id"]])
+    # the function a label leads into NOW (a label that slid off a deleted
+    # block names the code behind it)
+    fn_of_label_now = {}
+    pend_, last_iv_ = [], None
+    for si_, ii_, t_ in lst.all_tokens():
+        if (si_, ii_) != last_iv_:
+            pend_, last_iv_ = [], (si_, ii_)
+        if t_.t == "L":
+            pend_.append(t_.name)
+        elif t_.t == "I":
+            for n_ in pend_:
+                fn_of_label_now.setdefault(n_, t_.fn)
+            pend_ = []
+        elif t_.t == "D":
+            pend_ = []
     fn_orig_ret_left = {t.fn for t in instr_at.values()
                         if t.kind == "ret" and t.patch is None}
     missing_ft_src0 = {(m[0], m[1]) for m in missing if m[2] == "ft"}
@@ -913,6 +928,16 @@ def check_cfg(run, lst, ob):
                     f25_sites.add((tok.fn, tgt))
                     return (f"extra-site:{origin}-ret:no-call-there:"
                             "patch-behind-call-to-its-own-function")
+                if prev is not None and prev.t == "I" and \
+                        prev.kind == "call" and tok.fn is not None and \
+                        prev.patch is not None and \
+                        fn_of_label_now.get(prev.target) == tok.fn:
+                    # (F25) the same, the call being a patch's whose target
+                    # label slid onto this function with a deleted block
+                    f25_sites.add((tok.fn, tgt))
+                    return (f"extra-site:{origin}-ret:no-call-there:"
+                            "patch-behind-call-whose-label-slid-onto-its-"
+                            "own-function")
                 e_ = case["edits"][tok.patch] if 0 <= tok.patch < len(
                     case["edits"]) else None
                 if e_ is not None and e_.get("op") == "rep" and \
